@@ -3,6 +3,9 @@ package main
 import "verifharness/lib"
 
 func sub(h int, kind string) Step { return Step{Op: "sub", H: h, Kind: kind} }
+func subN(h int, kinds ...string) Step {
+	return Step{Op: "sub", H: h, Chans: len(kinds), Kinds: kinds}
+}
 func bgo(g, first, n int) Step    { return Step{Op: "bgo", G: g, First: first, N: n} }
 func settle(ms int) Step          { return Step{Op: "settle", N: ms} }
 func cancelS(h int) Step          { return Step{Op: "cancel", H: h} }
@@ -38,6 +41,18 @@ func families() []Scenario {
 	add("join-midway", sub(0, "prompt"), bgo(1, 0, 8), sub(1, "prompt"), bgo(2, 0, 4), sub(2, "slow"), quiesce, drain, closeS(1), quiesce)
 	add("cancel-midway", sub(0, "prompt"), sub(1, "slow"), bgo(1, 0, 10), settle(1), cancelS(1), bgo(2, 0, 5), quiesce, drain, closeS(1), quiesce)
 	// after Close everything is a no-op
+	// variadic Subscribe(ctx, ch1 … chN): one context for several channels
+	add("variadic-basic", subN(0, "prompt", "slow", "prompt"), bgo(1, 0, 5), bgo(2, 0, 5), quiesce, drain, closeS(1), quiesce)
+	add("variadic-leave", subN(0, "prompt", "stalled", "prompt"), sub(3, "prompt"), bgo(1, 0, 14), settle(15), quiesce,
+		cancelS(1), quiesce, bgo(2, 0, 4), quiesce, drain, closeS(1), quiesce)
+	add("variadic-leave-all-stalled", subN(0, "stalled", "stalled", "stalled"), bgo(1, 0, 13), settle(15), quiesce,
+		cancelS(0), quiesce, sub(3, "prompt"), bgo(2, 0, 3), quiesce, drain, closeS(1), quiesce)
+	add("variadic-late-reader", subN(0, "stalled", "prompt"), bgo(1, 0, 13), settle(15), wake(0), quiesce, drain, closeS(1), quiesce)
+	for i := 0; i < 6; i++ { // Close racing a 4-channel Subscribe: a prefix of the channels may be registered
+		add("variadic-close-race", sub(0, "prompt"), bgo(1, 0, 3), closeS(1), subN(1, "prompt", "prompt", "slow", "prompt"), bgo(2, 0, 3), quiesce)
+		add("variadic-close-race", sub(0, "prompt"), bgo(1, 0, 3), subN(1, "prompt", "prompt", "slow", "prompt"), closeS(1), bgo(2, 0, 3), quiesce)
+	}
+	add("variadic-after-close", closeS(1), quiesce, subN(0, "prompt", "prompt"), bgo(1, 0, 2), quiesce, closeS(1), quiesce)
 	add("after-close", sub(0, "prompt"), bgo(1, 0, 2), quiesce, drain, closeS(1), quiesce, bgo(2, 0, 2), sub(1, "prompt"), quiesce, closeS(1), quiesce)
 	add("no-subscribers", bgo(1, 0, 3), quiesce, closeS(2), quiesce)
 	add("close-during-traffic", sub(0, "prompt"), sub(1, "slow"), sub(2, "stalled"), bgo(1, 0, 8), bgo(2, 0, 8), settle(2), closeS(1), quiesce)
@@ -58,10 +73,23 @@ func randomScenario(r *lib.Rand, big bool) Scenario {
 	prompt := map[int]bool{} // prompt readers that were not cancelled
 	addSub := func() {
 		if nsub < maxSub {
-			k := kinds[r.Intn(len(kinds))]
-			st = append(st, sub(nsub, k))
-			prompt[nsub] = k == "prompt"
-			nsub++
+			n := 1
+			if r.Intn(4) == 0 && nsub+3 <= maxSub+2 {
+				n = r.Range(2, 3)
+			}
+			var ks []string
+			for c := 0; c < n; c++ {
+				ks = append(ks, kinds[r.Intn(len(kinds))])
+			}
+			if n == 1 {
+				st = append(st, sub(nsub, ks[0]))
+			} else {
+				st = append(st, subN(nsub, ks...))
+			}
+			for c := 0; c < n; c++ {
+				prompt[nsub] = ks[c] == "prompt"
+				nsub++
+			}
 		}
 	}
 	n0 := r.Range(1, 2)
